@@ -269,7 +269,8 @@ impl InfixOpManager {
             return (-1, -1);
         }
         let config = ans.unwrap();
-        let l_bp = config.0;
+        // doubled, so that the +1/-1 below can never reach an adjacent precedence
+        let l_bp = config.0 * 2;
         let mut r_bp = 0;
         if config.2 == InfixOpAssociativity::LEFT {
             r_bp = l_bp + 1;
